@@ -31,7 +31,7 @@ func gatewayStartup(c mgCase) (outcome string) {
 	for i := range id {
 		id[i] = i
 	}
-	in, err := loadInputs(c, id)
+	in, err := mgLoadInputs(c, id)
 	if err != nil {
 		return "invalid-input"
 	}
@@ -106,7 +106,7 @@ func mixedSharedType(schemas []*ast.Schema) bool {
 }
 
 func c05Oracle(c mgCase, items [][]string, schemas []*ast.Schema, outs []mgOutcome) []hx.Failure {
-	var fs failSet
+	var fs mgFailSet
 	conflict := false
 	for _, k := range c05Kinds {
 		conflict = conflict || k == c.Inject
@@ -153,7 +153,7 @@ func c05Oracle(c mgCase, items [][]string, schemas []*ast.Schema, outs []mgOutco
 	view := func(o mgOutcome) []string {
 		var v []string
 		for _, it := range o.Items {
-			if p := prefixOf(it); p == "T" || p == "F" || p == "A" {
+			if p := mgPrefixOf(it); p == "T" || p == "F" || p == "A" {
 				v = append(v, it)
 			}
 		}
@@ -164,14 +164,14 @@ func c05Oracle(c mgCase, items [][]string, schemas []*ast.Schema, outs []mgOutco
 				}
 			}
 		}
-		return dedupSorted(hx.SortedStrings(v))
+		return mgDedupSorted(hx.SortedStrings(v))
 	}
 	for k := 1; k < len(accepted); k++ {
 		a, b := view(accepted[0]), view(accepted[k])
-		if !eqStrs(a, b) {
-			da, db := diffStrs(a, b)
+		if !mgEqStrs(a, b) {
+			da, db := mgDiffStrs(a, b)
 			f := hx.Failure{Kind: "property-fails", Detail: fmt.Sprintf("the merged schema depends on the order of the service list: only as %v: %v; only as %v: %v", accepted[0].Perm, da, accepted[k].Perm, db)}
-			if nodeDefsDiffer(items) && allHavePrefix(append(append([]string{}, da...), db...), "F|Node|", "A|Node|") {
+			if nodeDefsDiffer(items) && mgAllHavePrefix(append(append([]string{}, da...), db...), "F|Node|", "A|Node|") {
 				f.Class = "C05-node-def-differs"
 			}
 			fs.add("order-result", f)
@@ -179,7 +179,7 @@ func c05Oracle(c mgCase, items [][]string, schemas []*ast.Schema, outs []mgOutco
 		}
 	}
 	// the gateway start-up sees the same verdict as Merge
-	if o := identityOutcome(outs); o != nil {
+	if o := mgIdentityOutcome(outs); o != nil {
 		g := gatewayStartup(c)
 		want := o.Outcome
 		if g != want {
